@@ -51,6 +51,11 @@ FTAGS = ["@f", "@d"]
 RTAGS = ["@r", "@d"]
 
 
+def _vt(tags, v):
+    """tag names of the second document of a history differ from the first one's (same ids, other names)"""
+    return [t + "'" for t in tags] if v else tags
+
+
 def slot(g, t, line, v, nm):
     """scenario slot types: 0 absent, 1 plain without steps, 2 plain with two steps (doc string argument),
     3 outline: one step, one examples block with one row, 4 outline: two steps with arguments; examples blocks
@@ -59,14 +64,14 @@ def slot(g, t, line, v, nm):
     if t == 0:
         return []
     if t == 1:
-        return [astgen.mk_scenario(g, nm + " <a>" + sfx, ["@s"], [], [], line)]
+        return [astgen.mk_scenario(g, nm + " <a>" + sfx, ["@s" + sfx], [], [], line)]
     if t == 2:
         steps = [astgen.mk_step(g, "Context", "given <a>" + sfx, line + 1, 2 if not v else 1, ("c<a>", "d", "doc <a>" + sfx, "mt<a>")),
                  astgen.mk_step(g, "Conjunction", "and" + sfx, line + 4, 0)]
-        return [astgen.mk_scenario(g, nm + sfx, ["@s", "@f"], steps, [], line)]
+        return [astgen.mk_scenario(g, nm + sfx, ["@s", "@f" + sfx], steps, [], line)]
     if t == 3:
         steps = [astgen.mk_step(g, "Action", "when <a> <b> <c>" + sfx, line + 1, 0)]
-        ex = [astgen.mk_examples(g, 3, ["@e"], ["a", "b"], [["1" + sfx, "<a>"]], line + 3)]
+        ex = [astgen.mk_examples(g, 3, ["@e" + sfx], ["a", "b"], [["1" + sfx, "<a>"]], line + 3)]
         return [astgen.mk_scenario(g, nm + " < <a>|<b> >" + sfx, [], steps, ex, line, "Scenario Outline")]
     if t == 4:
         steps = [astgen.mk_step(g, "Conjunction", "and <a>" + sfx, line + 1, 1 if not v else 3, ("<a>", "x<b>y", "doc <b>" + sfx, "m<a>")),
@@ -108,11 +113,11 @@ def build(fbg, t1, t2, r1bg, t3, t4, r2bg, t5, v=0, start=0):
     ch += slot(g, t2, 30, v, "s2")
     if r1bg >= 0:
         rch = background(g, r1bg, 52, v, ("Action", "Conjunction")) + slot(g, t3, 60, v, "s3") + slot(g, t4, 80, v, "s4")
-        ch.append(astgen.mk_rule(g, "r1", RTAGS, rch, 50))
+        ch.append(astgen.mk_rule(g, "r1", _vt(RTAGS, v), rch, 50))
     if r2bg >= 0:
         rch = background(g, r2bg, 102, v, ("Outcome", "Unknown")) + slot(g, t5, 110, v, "s5")
         ch.append(astgen.mk_rule(g, "r2", ["@r2"], rch, 100))
-    doc = astgen.mk_doc(g, FTAGS, ch, "dir/u.feature", "en")
+    doc = astgen.mk_doc(g, _vt(FTAGS, v), ch, "dir/u.feature", "en")
     return doc, g
 
 
